@@ -143,10 +143,10 @@ def records_in(data):
     return m, [(type(r).__name__, r.name.lower(), r.type, getattr(r, 'alias', getattr(r, 'server', '')).lower(), r.ttl) for r in m.answers()]
 
 
-def run_scenario(evs):
+def run_scenario(evs, loopback=True):
     from zeroconf import ServiceInfo
     log = []
-    with Sim(loopback=True) as sim:
+    with Sim(loopback=loopback) as sim:
         async def main():
             a = await sim.start_host('A', '10.0.0.1')
             x = ServiceInfo(T, XN, port=80, addresses=[bytes([10, 0, 0, 1])], server=HN)
